@@ -33,6 +33,12 @@ Fixpoint find_pos (j : nat) (idx : list nat) : option nat :=
               else match find_pos j t with Some p => Some (S p) | None => None end
   end.
 
+(* Q arithmetic does not reduce fractions.  [Qred q == q]; the model reduces at a few let-bindings so that
+   histories stay small when evaluated, and so that the normalised feed z handed to the solver oracle is a
+   canonical representative (equal feeds up to scaling give the identical z). *)
+Definition vr (v : vec) : vec := map Qred v.
+Definition rsum (v : vec) : Q := Qred (qsum v).
+
 Definition idx_eqb (a b : list nat) : bool := list_eqb Nat.eqb a b.
 Definition vmaxq (v : vec) : Q := match v with [] => 0 | x :: t => fold_left Qmax t x end.
 Definition vminq (v : vec) : Q := match v with [] => 0 | x :: t => fold_left Qmin t x end.
@@ -179,14 +185,14 @@ Definition swap_top (E : env) (index : list nat) (top : option nat) (mol_l mol_L
 
 (* K and phi stored after a call *)
 Definition stored_K_phi (mol_l mol_L : vec) : vec * Q :=
-  let Fl := qsum mol_l in
-  let FL := qsum mol_L in
+  let Fl := rsum mol_l in
+  let FL := rsum mol_L in
   if qzerob FL then (map (fun _ => 0) mol_l, 0)
   else if qzerob Fl then (map (fun _ => c_1e16) mol_l, 1)
   else
     let xl := map (fun v => let x := v / Fl in if qltb x c_1em16 then c_1em16 else x) mol_l in
     let xL := vdivs mol_L FL in
-    (map2 Qdiv xL xl, FL / (FL + Fl)).
+    (vr (map2 Qdiv xL xl), Qred (FL / (FL + Fl))).
 
 Definition set_TP (s : strm) (a : args) : strm :=
   if aupdate a then
@@ -194,16 +200,17 @@ Definition set_TP (s : strm) (a : args) : strm :=
   else s.
 
 Definition write_back (s : strm) (index : list nat) (F : Q) (mol_l mol_L : vec) : strm :=
-  mkstrm (scatter (m_l s) index (vscale F mol_l)) (scatter (m_L s) index (vscale F mol_L))
+  mkstrm (scatter (m_l s) index (vr (vscale F mol_l))) (scatter (m_L s) index (vr (vscale F mol_L)))
          (m_o s) (tcT s) (tcP s).
 
 (* the cached-K branch: Rachford-Rice split of the CURRENT z with the stored K *)
 Definition cached_split (phi : Q) (K : vec) (z : vec) : res (vec * vec) :=
   if qleb 1 phi then Ok (z, vscale 0 z)
   else
-    do y <- vdivc (vmul z K) (map (fun k => phi * k + (1 - phi)) K);
-    let mol_l := map (fun e_ => e_ * phi) y in
-    Ok (mol_l, vsub z mol_l).
+    do zK <- vop2 Qmult z K;
+    do y <- vdivc zK (map (fun k => phi * k + (1 - phi)) K);
+    let mol_l := vr (map (fun e_ => e_ * phi) y) in
+    Ok (mol_l, vr (vsub z mol_l)).
 
 (* the part of __call__ after mol_l, mol_L are known *)
 Definition finish (E : env) (st : lle_st) (s1 : strm) (index : list nat) (F : Q) (z : vec)
@@ -224,9 +231,9 @@ Definition lle_call (E : env) (o : lle_oracle) (st : lle_st) (s : strm) (a : arg
   : lle_st * strm * trace :=
   let s0 := set_TP s a in
   let '(s1, index, mol) := liquid_data E s0 in
-  let F := qsum mol in
+  let F := rsum mol in
   if nonzerob F && Nat.ltb 1 (length index) then
-    let z := vdivs mol F in
+    let z := vr (vdivs mol F) in
     let uc := use_cache_expr (ause_cache a) (chems_same (schems st) index)
                              (aT a) (sT st) (tolT st) (sz st) z (tolz st) in
     if uc then
@@ -236,6 +243,7 @@ Definition lle_call (E : env) (o : lle_oracle) (st : lle_st) (s : strm) (a : arg
         match phase_fraction (o_rr o) z K with
         | Err e => (st, s1, mktr true None (Err e))
         | Ok phi =>
+          let phi := Qred phi in
           let st1 := with_phi st (Some phi) in
           match cached_split phi K z with
           | Err e => (st1, s1, mktr true None (Err e))
@@ -248,8 +256,8 @@ Definition lle_call (E : env) (o : lle_oracle) (st : lle_st) (s : strm) (a : arg
     else
       let st1 := if chems_same (schems st) index then st else with_K_phi st None None in
       let sin := mksin (sK st1) (sphi st1) z (aT a) index (asingle a) in
-      let mol_L := o_solve o sin in
-      let mol_l := vsub z mol_L in
+      let mol_L := vr (o_solve o sin) in
+      let mol_l := vr (vsub z mol_L) in
       let '(st', s', r) := finish E st1 s1 index F z a mol_l mol_L in
       (st', s', mktr false (Some sin) r)
   else if negb (aupdate a) then
@@ -292,7 +300,17 @@ Fixpoint lrun (E : env) (p : lle_st * strm) (ops : list lop) : lle_st * strm * l
 
 (* ------------------------------------------------------------------ comparators used by the correspondence files *)
 Definition oq_approxb (a b : option Q) : bool := opt_eqb qapproxb a b.
-Definition ov_approxb (a b : option vec) : bool := opt_eqb vapproxb a b.
+(* partition coefficients: a component that sits (to 1e-11) entirely in one phase has K_i = x_L/x_l with x_l of the order
+   of the float rounding error (the source clamps it at 1e-16); such entries are compared as "both above 1e11" *)
+Definition c_sat : Q := 100000000000 # 1.
+Definition kapproxb (a b : Q) : bool := qapproxb a b || (qltb c_sat a && qltb c_sat b).
+Fixpoint vkapproxb (a b : vec) : bool :=
+  match a, b with
+  | [], [] => true
+  | x :: a', y :: b' => kapproxb x y && vkapproxb a' b'
+  | _, _ => false
+  end.
+Definition ov_approxb (a b : option vec) : bool := opt_eqb vkapproxb a b.
 
 Definition sin_eqb (a b : solver_in) : bool :=
   ov_approxb (iK a) (iK b) && oq_approxb (iphi a) (iphi b) && vapproxb (iz a) (iz b)
@@ -301,7 +319,7 @@ Definition sin_eqb (a b : solver_in) : bool :=
 Definition ret_eqb (a b : ret) : bool :=
   match a, b with
   | RNone, RNone => true
-  | RTriple i K p, RTriple i' K' p' => idx_eqb i i' && vapproxb K K' && qapproxb p p'
+  | RTriple i K p, RTriple i' K' p' => idx_eqb i i' && vkapproxb K K' && qapproxb p p'
   | _, _ => false
   end.
 
@@ -347,3 +365,361 @@ Fixpoint lrun_check (E : env) (p : lle_st * strm) (ops : list lop) (exp : list l
     obs_eqb st' s' t e && lrun_check E (st', s') ops' exp'
   | _, _ => false
   end.
+
+(* ------------------------------------------------------------------ inside LLE.solve_lle_liquid_mol *)
+(* oracles of one solver call *)
+Record solve_oracle := mksorc {
+  so_fexp : Q -> Q; so_fln : Q -> Q;            (* np.exp / np.log (stand-ins when run against the code) *)
+  so_gamma : vec -> vec;                        (* thermo.Gamma(lle_chemicals) at the call's T *)
+  so_ait_inner : (vec -> res vec) -> vec -> res vec;   (* flx.aitken on the inner loop *)
+  so_ait_outer : (vec -> res vec) -> vec -> res vec;   (* flx.aitken on the outer loop *)
+  so_fixed_point : (vec -> res vec) -> vec -> res vec; (* flx.fixed_point (single_loop) *)
+  so_rr : rr_oracle;                            (* flexsolve inside phase_fraction *)
+  so_shgo : vec -> bool * vec;                  (* scipy shgo: upper bounds -> (success, x) *)
+  so_de : vec -> vec                            (* scipy differential_evolution: upper bounds -> x *)
+}.
+
+Definition is_zerodiv (e : err) : bool := match e with EZeroDiv => true | _ => false end.
+
+(* the repaired inner loop (what lines 65-66 of lle.py intend): log K goes to the first block.
+   Reference map for the _partial theorem; NOT what the source does (that is Gen_kernels.inner_loop). *)
+Definition inner_loop_repaired (fexp fln : Q -> Q) (f_gamma : vec -> vec) (logKgammay z : vec) (n : nat) (phi : Q) : res vec :=
+  let K := map fexp (firstn n logKgammay) in
+  do x <- vdivc z (map (fun e_ => 1 + e_) (map (fun e_ => phi * e_) (map (fun e_ => e_ - 1) K)));
+  do x <- vdivsc x (qsum x);
+  let gammay := skipn n logKgammay in
+  let gammax := f_gamma x in
+  do K <- vdivc gammax gammay;
+  do y <- vop2 Qmult K x;
+  do y <- vdivsc y (qsum y);
+  let gammay := f_gamma y in
+  do K <- vdivc gammax gammay;
+  do new <- set_head n logKgammay (map fln K);
+  do new <- set_tail n new gammay;
+  Ok new.
+
+(* pseudo_equilibrium_outer_loop; NoEquilibrium is EInfeasible *)
+Definition outer_loop (o : solve_oracle) (v z : vec) (n : nat) : res vec :=
+  let logKgammay := removelast v in
+  let phi := last v 0 in
+  do lkg <- so_ait_inner o (fun w => inner_loop (so_fexp o) (so_fln o) (so_gamma o) w z n phi) logKgammay;
+  let lkg := vr lkg in
+  let K := map (so_fexp o) (firstn n lkg) in
+  match phase_fraction (so_rr o) z K with
+  | Err e => if is_zerodiv e then Err EInfeasible else Err e
+  | Ok phi =>
+    let phi := if qltb 1 phi then c_one_m16 else phi in
+    let phi := if qltb phi 0 then c_1em16 else phi in
+    if Nat.eqb (length lkg) (length v - 1) then Ok (lkg ++ [phi]) else Err EValue
+  end.
+
+Definition x_of (z K : vec) (phi : Q) : res vec :=
+  vdivc z (map (fun e_ => 1 + e_) (map (fun e_ => phi * e_) (map (fun e_ => e_ - 1) K))).
+
+(* pseudo_equilibrium *)
+Definition pseudo_equilibrium (o : solve_oracle) (K : vec) (z : vec) (n : nat) : res vec :=
+  do phi <- phase_fraction (so_rr o) z K;
+  let x := match x_of z K phi with
+           | Ok x => x
+           | Err _ => repeat 1 n                 (* bare except: x = np.ones(n) *)
+           end in
+  do x <- vdivsc x (rsum x);
+  do y <- vop2 Qmult K (vr x);
+  let g := so_gamma o (vr y) in
+  if negb (Nat.eqb (length K) n) || negb (Nat.eqb (length g) n) then Err EValue
+  else
+    let v := vr (map (so_fln o) K ++ g ++ [phi]) in
+    match so_ait_outer o (fun w => outer_loop o w z n) v with
+    | Err e => match e with EInfeasible => Ok z | _ => Err e end
+    | Ok v =>
+      let K := map (so_fexp o) (firstn n v) in
+      let phi := last v 0 in
+      do x <- x_of z K phi;
+      Ok (map (fun e_ => e_ * (1 - phi)) x)
+    end.
+
+(* indices[-1], indices[-2] of np.argsort(mol * MW): positions of the largest and second largest mass *)
+Fixpoint argmax_from (v : vec) (i : nat) (best : nat) (bv : Q) : nat :=
+  match v with
+  | [] => best
+  | x :: t => if qleb bv x then argmax_from t (S i) i x else argmax_from t (S i) best bv
+  end.
+Definition argmax (v : vec) : nat := match v with [] => O | x :: t => argmax_from t 1 O x end.
+Definition argmax2 (v : vec) : nat * nat :=
+  let a := argmax v in
+  let lo := vminq v - 1 in
+  (a, argmax (upd v a lo)).
+
+Definition default_guess (o : solve_oracle) (mass mol : vec) : res (vec * Q) :=
+  let '(a, b) := argmax2 mass in
+  let x := upd (upd mol a c_099) b c_1em3 in
+  let y := upd (upd mol a c_1em3) b c_099 in
+  do x <- vdivsc x (rsum x);
+  do y <- vdivsc y (rsum y);
+  do K <- vdivc (so_gamma o (vr y)) (so_gamma o (vr x));
+  Ok (vr K, 1 # 2).
+
+Inductive method := MPseudo | MShgo | MDE | MOther.
+
+Definition all_zero (v : vec) : bool := forallb qzerob v.
+
+(* LLE.solve_lle_liquid_mol(mol, T, lle_chemicals, single_loop) *)
+Definition solve_lle (o : solve_oracle) (m : method) (mws : vec) (K0 : option vec) (phi0 : option Q)
+           (mol : vec) (single : bool) : res vec :=
+  let n := length mol in
+  let mass := vmul mol mws in
+  match m with
+  | MPseudo =>
+    do Kphi <- match K0, phi0 with
+               | Some K, Some phi => if qltb 0 phi && qltb phi 1 then Ok (K, phi) else default_guess o mass mol
+               | Some K, None => Err EType        (* 0 < None *)
+               | None, _ => default_guess o mass mol
+               end;
+    let '(K, phi) := Kphi in
+    if single then
+      do phi <- phase_fraction (so_rr o) mol K;
+      let x := match x_of mol K phi with Ok x => x | Err _ => repeat 1 n end in
+      do x <- vdivsc x (rsum x);
+      do y <- vop2 Qmult K (vr x);
+      let g := so_gamma o (vr y) in
+      if negb (Nat.eqb (length K) n) || negb (Nat.eqb (length g) n) then Err EValue
+      else
+        let v := vr (K ++ g) in
+        do w <- so_fixed_point o (fun w => inner_loop (so_fexp o) (so_fln o) (so_gamma o) w mol n phi) v;
+        let K := firstn n w in
+        match phase_fraction (so_rr o) mol K with
+        | Err e => if is_zerodiv e then Ok mol else Err e
+        | Ok phi =>
+          let phi := if qltb 1 phi then c_one_m16 else phi in
+          let phi := if qltb phi 0 then c_1em16 else phi in
+          do x <- x_of mol K phi;
+          Ok (map (fun e_ => e_ * (1 - phi)) x)
+        end
+    else pseudo_equilibrium o K mol n
+  | MShgo =>
+    let ub := upd mol (argmax mass) ((1 # 2) * nthq mol (argmax mass)) in
+    let '(ok, x) := so_shgo o ub in
+    if negb ok || all_zero x then Ok (so_de o ub) else Ok x
+  | MDE =>
+    let ub := upd mol (argmax mass) ((1 # 2) * nthq mol (argmax mass)) in
+    Ok (so_de o ub)
+  | MOther => Err EValue
+  end.
+
+(* iterate a map k times (what the harness substitutes for flx.aitken / flx.fixed_point) *)
+Fixpoint iter_res (k : nat) (f : vec -> res vec) (x : vec) : res vec :=
+  match k with
+  | O => Ok x
+  | S k' => do y <- f x; iter_res k' f (vr y)
+  end.
+
+(* affine stand-in for the activity coefficients: gamma(x) = a + B x *)
+Definition gamma_aff (a : vec) (B : list vec) (x : vec) : vec :=
+  map2 (fun ai row => ai + vdot row x) a B.
+
+Definition rv_eqb (a b : res vec) : bool := res_eqb vapproxb a b.
+
+(* k plain evaluations of _x_iter (the harness's stand-in for flx.aitken in sle.py) *)
+Fixpoint iter_ls {S : Type} (k : nat) (f : S -> Q -> S * res Q) (ls : S) (x : Q) : S * res Q :=
+  match k with
+  | O => (ls, Ok x)
+  | S k' => match f ls x with
+            | (ls', Ok y) => iter_ls k' f ls' (Qred y)
+            | (ls', Err e) => (ls', Err e)
+            end
+  end.
+
+(* ------------------------------------------------------------------ SLE *)
+Record senv := mksenv {
+  s_lle_index : list nat;
+  s_tm : list (option Q); s_hfus : list (option Q);     (* Chemical.Tm, Chemical.Hfus *)
+  s_cpl : vec; s_cps : vec;                             (* Cn.l(T), Cn.s(T): oracles, constant stand-ins *)
+  s_ideal : bool                                        (* thermo.Gamma is IdealActivityCoefficients *)
+}.
+
+Record sle_st := mksst {
+  e_nonzero : option (list nat);     (* _nonzero (frozenset, as the sorted list) *)
+  e_index : sel;                     (* _index: () initially, a list after _setup, slice(None) after a given solubility *)
+  e_chemical : option nat;           (* _chemical *)
+  e_sgi : option nat;                (* _solute_gamma_index (None: the slot was never assigned) *)
+  e_setup : bool;                    (* _liquid_mol / _solid_mol exist *)
+  e_act : option Q                   (* activity_coefficient when truthy *)
+}.
+Definition sst_init (act : option Q) : sle_st := mksst None (SList []) None None false act.
+
+Record sstrm := mksstrm { q_l : vec; q_s : vec; q_T : Q; q_P : Q }.
+
+Record sargs := mksargs {
+  sa_solute : option nat;            (* chemicals.get_index(solute); None = unknown name *)
+  sa_T : option Q; sa_H : bool; sa_P : option Q; sa_sol : option Q
+}.
+
+Record eut_in := mkeut { u_T : Q; u_Tm : Q; u_Hm : Q; u_Cpl : Q; u_Cps : Q; u_gamma : Q }.
+(* the two arrays _x_iter writes while flx.aitken evaluates it *)
+Definition lsT := (vec * vec)%type.
+Record sle_oracle := mkeorc {
+  oe_eut : eut_in -> Q;                              (* chemicals.solubility_eutectic *)
+  oe_gamma : vec -> res vec;                         (* self._gamma(x_l, T) (may reject the length of x_l) *)
+  oe_aitken : (lsT -> Q -> lsT * res Q) -> lsT -> Q -> lsT * res Q   (* flx.aitken on _x_iter, threading the arrays *)
+}.
+
+Definition opt_nth {A} (l : list (option A)) (i : nat) : option A := nth i l None.
+
+(* SLE._x_iter: writes the solute entries of the two arrays, then evaluates the solubility *)
+Definition x_iter (o : sle_oracle) (st : sle_st) (si : nat) (mol_solute : Q) (u : eut_in) (ls : lsT) (x : Q) : lsT * res Q :=
+  match update_solubility si (e_index st) mol_solute (fst ls) (snd ls) x with
+  | Err e => (ls, Err e)
+  | Ok ls' =>
+    let liquid := sel_pick (fst ls') (e_index st) in
+    match vdivsc liquid (qsum liquid) with
+    | Err e => (ls', Err e)
+    | Ok x_l =>
+      match oe_gamma o x_l with
+      | Err e => (ls', Err e)
+      | Ok g =>
+        match e_sgi st with
+        | None => (ls', Err EOther)                  (* AttributeError: _solute_gamma_index *)
+        | Some k =>
+          if Nat.ltb k (length g) then
+            (ls', Ok (oe_eut o (mkeut (u_T u) (u_Tm u) (u_Hm u) (u_Cpl u) (u_Cps u) (nthq g k))))
+          else (ls', Err EIndex)
+        end
+      end
+    end
+  end.
+
+(* SLE._solve_x *)
+Definition solve_x (V : senv) (o : sle_oracle) (st : sle_st) (si : nat) (mol_solute : Q) (ls : lsT) (T : Q) : lsT * res Q :=
+  match opt_nth (s_tm V) si with
+  | None => (ls, Err ERuntime)
+  | Some Tm =>
+    match opt_nth (s_hfus V) si with
+    | None => (ls, Err ERuntime)
+    | Some Hm =>
+      let u := mkeut T Tm Hm (nthq (s_cpl V) si) (nthq (s_cps V) si) 1 in
+      let x0 := oe_eut o u in
+      if s_ideal V then
+        (ls, Ok (oe_eut o (mkeut T Tm Hm (u_Cpl u) (u_Cps u) (match e_act st with Some a => a | None => 1 end))))
+      else oe_aitken o (x_iter o st si mol_solute u) ls x0
+    end
+  end.
+
+(* the index part of SLE._setup (after the repair pending_fixes/C15_2: _chemical is cleared whenever the
+   mixture branch is, or was, taken); the flag is false when list.index raises ValueError *)
+Definition sle_setup (V : senv) (st : sle_st) (nz : list nat) (si : nat) : sle_st * bool :=
+  if opt_eqb idx_eqb (e_nonzero st) (Some nz) then
+    (mksst (e_nonzero st) (e_index st) None (e_sgi st) true (e_act st), true)
+  else
+    let index := filter (fun i => existsb (Nat.eqb i) nz) (s_lle_index V) in
+    if Nat.eqb (length index) 1 then
+      (mksst (e_nonzero st) (e_index st) (Some si) (e_sgi st) true (e_act st), true)
+    else
+      match find_pos si index with
+      | None => (mksst (Some nz) (SList index) None (e_sgi st) true (e_act st), false)
+      | Some p => (mksst (Some nz) (SList index) None (Some p) true (e_act st), true)
+      end.
+
+Definition sset_T (s : sstrm) (T : Q) : sstrm := mksstrm (q_l s) (q_s s) T (q_P s).
+Definition sset_ls (s : sstrm) (ls : vec * vec) : sstrm := mksstrm (fst ls) (snd ls) (q_T s) (q_P s).
+
+(* SLE.__call__(solute, T, P, H, solubility); the H-given path is not modelled (Err EOther) *)
+Definition sle_call (V : senv) (o : sle_oracle) (st : sle_st) (s : sstrm) (a : sargs)
+  : sle_st * sstrm * res unit :=
+  match sa_solute a with
+  | None => (st, s, Err EKey)
+  | Some si =>
+    match sa_T a, sa_H a with
+    | None, false => (st, s, Err EValue)
+    | Some _, true => (st, s, Err EValue)
+    | None, true => (st, s, Err EOther)
+    | Some T, false =>
+      let s := mksstrm (q_l s) (q_s s) T (match sa_P a with Some p => p | None => q_P s end) in
+      match sa_sol a with
+      | Some x =>
+        if negb (e_setup st) then (st, s, Err EOther)        (* AttributeError: _solid_mol *)
+        else
+          let mol_solute := nthq (q_s s) si + nthq (q_l s) si in
+          let st := mksst (e_nonzero st) SAll (e_chemical st) (e_sgi st) true (e_act st) in
+          match update_solubility si SAll mol_solute (q_l s) (q_s s) x with
+          | Err e => (st, s, Err e)
+          | Ok ls => (st, sset_ls s ls, Ok tt)
+          end
+      | None =>
+        (* _setup *)
+        let st := mksst (e_nonzero st) (e_index st) (e_chemical st) (e_sgi st) true (e_act st) in
+        let mol := vadd (q_l s) (q_s s) in
+        let mol_solute := nthq mol si in
+        if qzerob mol_solute then (st, s, Err ERuntime)
+        else
+          let nz := filter (fun i => nonzerob (nthq mol i)) (seq 0 (length mol)) in
+          let r := sle_setup V st nz si in
+          match r with
+          | (st, false) => (st, s, Err EValue)               (* list.index: solute is not an LLE chemical *)
+          | (st, true) =>
+            match e_chemical st with
+            | Some c =>
+              match opt_nth (s_tm V) c with
+              | None => (st, s, Err EType)                   (* T > None *)
+              | Some Tm =>
+                if qltb Tm T then (st, sset_ls s (upd (q_l s) si mol_solute, upd (q_s s) si 0), Ok tt)
+                else (st, sset_ls s (upd (q_l s) si 0, upd (q_s s) si mol_solute), Ok tt)
+              end
+            | None =>
+              match solve_x V o st si mol_solute (q_l s, q_s s) T with
+              | (ls1, Err e) => (st, sset_ls s ls1, Err e)
+              | (ls1, Ok x) =>
+                match update_solubility si (e_index st) mol_solute (fst ls1) (snd ls1) x with
+                | Err e => (st, sset_ls s ls1, Err e)
+                | Ok ls => (st, sset_ls s ls, Ok tt)
+                end
+              end
+            end
+          end
+      end
+    end
+  end.
+
+Inductive sop :=
+| SCall (a : sargs) (o : sle_oracle)
+| SSetFlow (l s : vec)
+| SReset (act : option Q).
+
+Definition sstep (V : senv) (p : sle_st * sstrm) (op : sop) : sle_st * sstrm * option (res unit) :=
+  let '(st, s) := p in
+  match op with
+  | SCall a o => let '(st', s', r) := sle_call V o st s a in (st', s', Some r)
+  | SSetFlow l sd => (st, mksstrm l sd (q_T s) (q_P s), None)
+  | SReset act => (sst_init act, s, None)
+  end.
+
+Record sobs := mksobs { sb_l : vec; sb_s : vec; sb_T : Q; sb_P : Q; sb_index : sel; sb_chemical : option nat;
+                        sb_nonzero : option (list nat); sb_ret : option (res unit) }.
+Definition sel_eqb (a b : sel) : bool :=
+  match a, b with SAll, SAll => true | SList x, SList y => idx_eqb x y | _, _ => false end.
+Definition unit_eqb (a b : unit) : bool := true.
+Definition sobs_eqb (st : sle_st) (s : sstrm) (r : option (res unit)) (e : sobs) : bool :=
+  vapproxb (q_l s) (sb_l e) && vapproxb (q_s s) (sb_s e) && qeqb (q_T s) (sb_T e) && qeqb (q_P s) (sb_P e)
+  && sel_eqb (e_index st) (sb_index e) && opt_eqb Nat.eqb (e_chemical st) (sb_chemical e)
+  && opt_eqb idx_eqb (e_nonzero st) (sb_nonzero e) && opt_eqb (res_eqb unit_eqb) r (sb_ret e).
+
+Fixpoint srun_check (V : senv) (p : sle_st * sstrm) (ops : list sop) (exp : list sobs) : bool :=
+  match ops, exp with
+  | [], [] => true
+  | op :: ops', e :: exp' =>
+    let '(st', s', r) := sstep V p op in
+    let s' := mksstrm (vr (q_l s')) (vr (q_s s')) (q_T s') (q_P s') in
+    sobs_eqb st' s' r e && srun_check V (st', s') ops' exp'
+  | _, _ => false
+  end.
+
+(* ------------------------------------------------------------------ the two compositions of one pass of the inner loop *)
+Definition loop_x (fexp : Q -> Q) (v z : vec) (n : nat) (phi : Q) : res vec :=
+  do x <- x_of z (map fexp (firstn n v)) phi; vdivsc x (qsum x).
+Definition loop_y (fexp : Q -> Q) (gamma : vec -> vec) (v z : vec) (n : nat) (phi : Q) : res vec :=
+  do x <- loop_x fexp v z n phi;
+  do K <- vdivc (gamma x) (skipn n v);
+  do y <- vop2 Qmult K x;
+  vdivsc y (qsum y).
+(* Rachford-Rice residual of (z, K, phi): what phase_fraction solves *)
+Definition rr_residual (z K : vec) (phi : Q) : Q :=
+  qsum (map2 (fun zi k => zi * (k - 1) / (1 + phi * (k - 1))) z K).
